@@ -67,9 +67,13 @@ def _bf3_worker(args):
     # remember from those reads, every later read with checking on must still refuse damaged content
     L.rec_read(rec, text, key, False, False, None, auth=auth, label="authentic-unchecked")
     L.rec_read(rec, text, key, True, False, None, auth=auth, label="authentic")
-    for label, t in variants_of(binary, text, r, full):
+    vs = variants_of(binary, text, r, full)
+    if len(comps) > 255:          # the many-components shape costs TLC ~1 s per event: the damage in the last payload bytes + every 12th other variant
+        tail = {"byte%d" % p for p in range(len(binary) - 3, len(binary))}
+        vs = [v for i, v in enumerate(vs) if v[0].split("=")[0] in tail or i % 12 == 0]
+    for label, t in vs:
         L.rec_read(rec, t, key, True, False, None, auth=auth, label=label)
-    for bit in (range(128) if len(binary) <= 700 else (0, 77, 127)):
+    for bit in (range(128) if len(binary) <= 700 else (0, 77, 127) if len(comps) <= 255 else (77,)):
         k2 = bytearray(key)
         k2[bit // 8] ^= 1 << (bit % 8)
         L.rec_read(rec, text, bytes(k2), True, False, None, auth=auth, label="keybit%d" % bit)
